@@ -6,7 +6,7 @@ from __future__ import annotations
 
 from refs import riscv_ref as R
 from symx import ops
-from symx.ops import zx, sx, cond, land, lor, lnot
+from symx.ops import zx, sx, cond, land, lor, lnot, val
 
 PROPERTY = "C01"
 LEVEL = "model_checking"
@@ -130,6 +130,11 @@ def h_step(e, m, dcache=None):
     e.claim_eq("memory", c.mem_byte(qa), refmem.abstract(qa))
     # pc, output, exit code, counters
     e.claim_eq("pc", zx(st.program_counter, 32), exp.pc)
+    # The simulator keeps the program counter as an unbounded Python int; a value that differs from
+    # the specified one by a multiple of 2^32 is only tolerated where it cannot matter: when the
+    # specified address is outside the instruction address space [0, 2^14), so that execution ends
+    # there under both readings.  A target that wraps onto an instruction address must be exact.
+    e.claim("pc-exact-where-an-instruction-can-be", lor(cond("==", val(st.program_counter), exp.pc), cond(">=", exp.pc, 2**14)))
     e.claim("canary:pc", cond("==", zx(st.program_counter, 32), zx(exp.pc + 4, 32)))
     e.claim_eq("output", st.output, exp.out)
     e.claim_eq("exit_code", st.exit_code, exp.exit_code)
